@@ -69,7 +69,7 @@ def map_scenario(sc):
         return addinfo[h][2] if h in addinfo else 1000 + h
     name2hid = {}        # a name is reused when a handler is re-added under a stopped handler's name
     gbind = {}           # handler goroutine / handleClose goroutine -> handler number (bound at its first stamp)
-    inmap_h = set(); started_h = set()
+    inmap_h = set(); started_h = set(); early_end = {}
     named = {}           # name -> all handler numbers that ever had it, in order
     hc_taken = set()     # handler numbers whose handleClose goroutine is identified
     cancelled_h = set()  # handlers whose own context is known to be cancelled (Stop called / loop ended)
@@ -201,10 +201,16 @@ def map_scenario(sc):
                     model_closed.update(x for x in addinfo if sub_of(x) == sub_of(hh))
             elif w == 'sub.closed':
                 h = int(k[0])
+                # a subscription whose context is already done ends inside / right after Subscribe, i.e. possibly BEFORE
+                # RunHandlers stamps rh.subscribed (the model's Subscribe step): such an end is placed right after that step
                 if k[1] == 'ctx':
-                    if h not in model_closed: lab('LSubCtx %d' % h)
+                    if h in model_closed: pass
+                    elif h in started_h: lab('LSubCtx %d' % h)
+                    else: early_end.setdefault(h, []).append(('LSubCtx %d' % h, None))
                 elif k[1] == 'env':
-                    if h not in model_closed: lab('LSubEnd %d' % h, ['ASubEnd %d' % h])
+                    if h in model_closed: pass
+                    elif h in started_h: lab('LSubEnd %d' % h, ['ASubEnd %d' % h])
+                    else: early_end.setdefault(h, []).append(('LSubEnd %d' % h, ['ASubEnd %d' % h]))
                     m.hist.append(('ASubEnd %d' % h, e))
             elif w == 'probe_stuck':
                 m.hist.append(('AProbeStuck %d' % int(k[0]), e))
@@ -234,6 +240,8 @@ def map_scenario(sc):
             x = who(g); h = hid(k[0]); ok = w == 'rh.subscribed'
             if ok: started_h.add(h)
             lab('%s (CPick %d %s)' % (x, h, 'true' if ok else 'false'), ['ASubscribe %d %s' % (h, 'true' if ok else 'false')])
+            if ok:
+                for l_, e_ in early_end.pop(h, []): lab(l_, e_)
         elif w == 'rh.close_started':
             lab(who(g) + ' CStep')
         elif w == 'rh.started':
